@@ -296,5 +296,13 @@ theorem freed_or_rekeyed_step (s : State) (m : Move) (h : Inv10 s) (ha : assumed
       exact cleared ((RChg.of_alloc_eq (s' := withFaults s fault pfault) rfl).trans (apiRelease_chgA _ _ ip' k))
     | reload pools fault => simp [assumed10] at ha2
     | restart => simp [assumed10] at ha2
+    | resyncSnap => exact absurd rfl same
+    | resyncRec ip' fault pfault =>
+      apply cleared
+      dsimp only [step]
+      split
+      · exact RChg.refl s
+      · exact ((RChg.of_alloc_eq (s' := withFaults s fault pfault) rfl).trans (resyncOne_chgA _ _ ip' _)).trans
+          (RChg.of_alloc_eq rfl)
 
 end Galaxy.PluginC10
